@@ -171,6 +171,9 @@ func (b *OutboundBreaker) Do(f func() error) (bool, error) {
 	// log.Printf("OutboundBreaker total %d %v", total, closed)
 	if closed {
 		b.counts[0]++
+		// The bucket that takes an admission starts with it, so
+		// the admission is remembered for a full interval.
+		b.updated = now
 	}
 	b.Unlock()
 	var err error
@@ -254,14 +257,25 @@ func (b *OutboundBreaker) slide(now time.Time) {
 	ns := now.Sub(b.updated).Nanoseconds()
 	resolution := b.interval.Nanoseconds() / int64(b.ticks)
 	ticks := int(ns / int64(resolution))
-	if len(b.counts) < ticks {
+	if ticks <= 0 {
+		// Not a full tick since the last slide.  Leave 'updated'
+		// alone: a caller that polls faster than a tick must not
+		// keep the window from sliding.
+		return
+	}
+	if len(b.counts) <= ticks {
+		// Everything has aged out.
 		ticks = len(b.counts)
+		b.updated = now
+	} else {
+		// Advance by whole ticks, keeping the fraction of a tick
+		// that has passed.
+		b.updated = b.updated.Add(time.Duration(int64(ticks) * resolution))
 	}
 	copy(b.counts[ticks:], b.counts)
 	for i := 0; i < ticks; i++ {
 		b.counts[i] = 0
 	}
-	b.updated = now
 }
 
 // ComboBreaker is a bunch of Breakers considered as one.
